@@ -68,6 +68,7 @@ type FuncCtx struct {
 	ghostNames map[string]*Value
 	entryAlloc string
 	closures   []*closureFrame
+	inlines    []*inlineFrame
 	frameBound string
 }
 
@@ -1117,6 +1118,30 @@ type closureFrame struct {
 }
 
 func (fc *FuncCtx) execReturn(x *ast.ReturnStmt, st *State) {
+	if n := len(fc.inlines); n > 0 {
+		fr := fc.inlines[n-1]
+		var vals []*Value
+		if len(x.Results) == 0 {
+			for _, r := range fr.results {
+				v, ok := fc.readVar(st, r)
+				if !ok {
+					fc.unsupp(x, "bare return without named results")
+				}
+				vals = append(vals, v)
+			}
+		} else if len(x.Results) == 1 && len(fr.results) > 1 {
+			vals = fc.evalMulti(x.Results[0], st)
+		} else {
+			for _, r := range x.Results {
+				vals = append(vals, fc.eval(r, st))
+			}
+		}
+		for i := range vals {
+			st.ghost[fmt.Sprintf("$inl%d.%d", fr.id, i)] = fc.convertTo(vals[i], fc.e.shapeOf(fr.results[i].Type()))
+		}
+		fr.rets = append(fr.rets, st)
+		return
+	}
 	if n := len(fc.closures); n > 0 {
 		cf := fc.closures[n-1]
 		if len(x.Results) == 1 {
